@@ -13,7 +13,10 @@ package main
 //     handler of one request is still running, so that its completion (the post-hoc give-back of a
 //     skipped request) meets a window that other requests have rolled meanwhile,
 //   - a KeyGenerator that returns the header value as fiber hands it out (not copied) while all
-//     requests of the history arrive on one reused fasthttp.RequestCtx.
+//     requests of the history arrive on one reused fasthttp.RequestCtx,
+//   - storage flavours: the injected storage copies the value it is given / keeps the slice handed
+//     to Set and returns it from Get uncopied (what the map based storages of the ecosystem do,
+//     internal/storage/memory among them), under histories that interleave two keys in one window.
 
 import (
 	"errors"
@@ -81,7 +84,7 @@ func (o hop) String() string {
 
 type hcfg struct {
 	Algo    string // fixed | sliding
-	Storage string // memory | injected
+	Storage string // memory | injected (copies the values) | keeping (keeps the value slice given to Set, Get returns it uncopied)
 	Skip    string // none | failed | successful
 	Limit   string // static2 | func-a1-b3 | func0 | func-req
 	Key     string `json:",omitempty"` // "" = KeyGenerator copies the header value | raw = returns it as fiber hands it out
@@ -144,8 +147,14 @@ func (c hcfg) tag() string {
 // storages of the ecosystem it keeps the key string it is given; entries are searched by key
 // bytes in insertion order, so that its behaviour does not depend on a map hash seed even when a
 // caller hands it a key whose bytes change later.
+//
+// Two flavours: by default it copies the value on Set and on Get (a storage that serialises onto a
+// wire); with keep it stores the very slice it is handed and returns it from Get without copying,
+// and ignores empty keys/values - the behaviour of gofiber/storage/memory and of its in-repo copy
+// internal/storage/memory. fiber.Storage does not oblige an implementation to copy.
 type ttlStorage struct {
 	ents []ttlEntry
+	keep bool
 }
 type ttlEntry struct {
 	key string
@@ -167,6 +176,9 @@ func (s *ttlStorage) Get(key string) ([]byte, error) {
 	if i < 0 || (s.ents[i].exp != 0 && s.ents[i].exp <= utils.Timestamp()) {
 		return nil, nil
 	}
+	if s.keep {
+		return s.ents[i].val, nil
+	}
 	return append([]byte(nil), s.ents[i].val...), nil
 }
 func (s *ttlStorage) Set(key string, val []byte, ttl time.Duration) error {
@@ -174,7 +186,13 @@ func (s *ttlStorage) Set(key string, val []byte, ttl time.Duration) error {
 	if ttl > 0 {
 		exp = uint32(ttl.Seconds()) + utils.Timestamp()
 	}
-	e := ttlEntry{key, append([]byte(nil), val...), exp}
+	if s.keep && (len(key) == 0 || len(val) == 0) {
+		return nil
+	}
+	e := ttlEntry{key, val, exp}
+	if !s.keep {
+		e.val = append([]byte(nil), val...)
+	}
 	if i := s.find(key); i >= 0 {
 		s.ents[i] = e
 	} else {
@@ -332,7 +350,7 @@ func seqOf(c fiber.Ctx) int {
 
 // runHistory runs one history on a fresh app. A history that uses added dimensions and violates
 // is run again with one dimension switched off at a time (handlers write their status themselves;
-// exempted requests taken out; no overlap; one limit per key; fresh request contexts), then with all of them off: a
+// exempted requests taken out; no overlap; one limit per key; fresh request contexts; a storage that copies), then with all of them off: a
 // violation that vanishes gets ONE signature per class and configuration, `... only-with=<dimension>`
 // without the history shape; a violation that stays keeps the ordinary signature.
 func runHistory(c hcfg, ops []hop, l *core.Local, ctxs *ctxPair) {
@@ -343,9 +361,10 @@ func runHistory(c hcfg, ops []hop, l *core.Local, ctxs *ctxPair) {
 		dLimit
 		dCtx
 		dDflt
+		dKeep
 		nDims
 	)
-	names := [nDims]string{"handler-returns-error", "next-exempted-request", "overlapping-requests", "limit-differs-between-requests-of-a-key", "reused-ctx", "config-fields-left-unset"}
+	names := [nDims]string{"handler-returns-error", "next-exempted-request", "overlapping-requests", "limit-differs-between-requests-of-a-key", "reused-ctx", "config-fields-left-unset", "storage-keeps-value-slice"}
 	var has [nDims]bool
 	firstMax := map[string]int{}
 	for _, o := range ops {
@@ -362,6 +381,7 @@ func runHistory(c hcfg, ops []hop, l *core.Local, ctxs *ctxPair) {
 	}
 	has[dCtx] = c.Key == "raw" && ctxs != nil
 	has[dDflt] = c.Dflt != "" && c.Dflt != "exp3" && !c.Explicit
+	has[dKeep] = c.Storage == "keeping"
 	extra := false
 	for _, h := range has {
 		extra = extra || h
@@ -407,6 +427,9 @@ func runHistory(c hcfg, ops []hop, l *core.Local, ctxs *ctxPair) {
 		cc := c
 		if off[dDflt] {
 			cc.Explicit = true // the documented defaults spelled out
+		}
+		if off[dKeep] {
+			cc.Storage = "injected" // the same storage, copying the values
 		}
 		out := map[string]bool{}
 		for _, x := range runHistoryOn(cc, v, l, vc, true, false).viols {
@@ -498,8 +521,11 @@ func runHistoryOn(c hcfg, ops []hop, l *core.Local, ctxs *ctxPair, collect, reco
 	if c.Algo == "sliding" {
 		cfg.LimiterMiddleware = limiter.SlidingWindow{}
 	}
-	if c.Storage == "injected" {
+	switch c.Storage {
+	case "injected":
 		cfg.Storage = &ttlStorage{}
+	case "keeping":
+		cfg.Storage = &ttlStorage{keep: true}
 	}
 	if c.Next {
 		cfg.Next = func(c fiber.Ctx) bool { return r.ops[seqOf(c)].Bypass }
